@@ -35,3 +35,102 @@ UNITS["kEscapedMap"] = dict(file=QT, anchor=r"static const uint8_t kEscapedMap\[
 UNITS["QuotedChar"] = dict(file=QT, anchor=r"struct QuotedChar \{", kind="struct")
 UNITS["kQuoteTab"] = dict(file=QT, anchor=r"static const struct QuotedChar kQuoteTab\[256\] = \{", kind="table")
 UNITS["kNeedEscaped"] = dict(file=QT, anchor=r"static const bool kNeedEscaped\[256\] = \{", kind="table")
+
+# ------------------------------------------------------------------ utils.h, base.h (both arches)
+UNITS["IsSpace"] = dict(file="include/sonic/internal/utils.h", anchor=r"static sonic_force_inline bool IsSpace\(")
+for arch in ("avx2", "sse"):
+    B = A + arch + "/base.h"
+    for fn, rt in (("TrailingZeroes", "int"), ("LeadingZeroes", "int"), ("CountOnes", "long long int"), ("PrefixXor", "uint64_t")):
+        UNITS["%s.%s" % (arch, fn)] = dict(
+            file=B, anchor=r"sonic_force_inline %s %s\(" % (rt.replace(" ", r"\s+"), fn),
+            rules=[("set1-char", r"_mm_set1_epi8\('\\xFF'\)", r"_mm_set1_epi8((char)0xFF)")] if fn == "PrefixXor" else [])
+
+# ------------------------------------------------------------------ SIMD wrapper idioms (skip.inc.h, quote.inc.h, unicode.h)
+CH = r"(?:'(?:\\.[^']*|[^'\\])'|\(uint8_t\)\(tokens\[i\]\))"
+_OPS = {"==": "VEC_EQ", "<=": "VEC_LE", "<": "VEC_LT"}
+SIMD_RULES = [
+    ("simd8x64-load", r"\b(?:const )?simd8x64<uint8_t> (\w+)\((\w+)\);", r"const simd8x64_u8 \1 = simd8x64_load(\2);"),
+    ("simd8x64-eqv", r"(?s)\b(\w+)\.eq\(\{(.*?)\}\)", r"simd8x64_eqv(\1, \2)"),
+    ("simd8x64-eq", r"\b(\w+)\.eq\(([^(){};]+)\)", r"simd8x64_eq(\1, \2)"),
+    ("simd8x64-chunk", r"\b(\w+)\.chunks\[(\d)\]", r"simd8x64_chunk256(\1, \2)"),
+    ("repeat16", r"simd256<uint8_t>::repeat_16\(", r"simd256_repeat_16("),
+    ("vec-load", r"\b(const )?(VecUint8Type|VecType) (\w+)\(([^;]+)\);", r"\1\2 \3 = VEC_LOAD(\4);"),
+    ("vec256-load", r"\bsimd256<uint8_t> (\w+)\(([^;]+)\);", r"m256 \1 = _mm256_loadu_si256((const m256 *)(\2));"),
+    ("vec128-load", r"\bsimd128<uint8_t> (\w+)\(([^;]+)\);", r"m128 \1 = _mm_loadu_si128((const m128 *)(\2));"),
+    ("vecbool-splat", r"\bVecBoolType (\w+)\((false|true)\);", r"VecBoolType \1 = VEC_SPLAT_BOOL(\2);"),
+    ("vec-or-assign", r"\b(\w+) \|= \((\w+) == (" + CH + r")\);", r"\1 = VEC_OR(\1, VEC_EQ(\2, \3));"),
+    ("vec-cmp", r"\((v) (==|<=|<) (" + CH + r")\)", lambda m: "%s(%s, %s)" % (_OPS[m.group(2)], m.group(1), m.group(3))),
+    ("vec-or3-bitmask", r"\((VEC_\w+\([^()]*\)) \| (VEC_\w+\([^()]*\)) \| (VEC_\w+\([^()]*\))\)\.to_bitmask\(\)",
+     r"VEC_TO_BITMASK(VEC_OR(VEC_OR(\1, \2), \3))"),
+    ("vec-call-bitmask", r"(VEC_\w+\([^()]*\))\.to_bitmask\(\)", r"VEC_TO_BITMASK(\1)"),
+    ("vec-var-bitmask", r"\b(\w+)\.to_bitmask\(\)", r"VEC_TO_BITMASK(\1)"),
+    ("vec-store", r"\b(\w+)\.store\(([^;]+)\);", r"VEC_STORE(\1, \2);"),
+    ("getescaped-inst", r"\bGetEscaped<(\w+)>\(", r"GETESCAPED(\1)("),
+]
+
+# ------------------------------------------------------------------ skip.inc.h (shared x86 kernels; instantiated by VEC_LEN)
+SK = A + "common/x86_common/skip.inc.h"
+MAXLEN = "0x7fffffff"
+
+UNITS["GetStringBits"] = dict(
+    file=SK, anchor=r"sonic_force_inline uint64_t GetStringBits\(", rules=SIMD_RULES,
+    must_fire=["simd8x64-load", "simd8x64-eq", "getescaped-inst"],
+    callmacro="#define GetStringBits(d, pi, pe) (GetStringBits)(d, &(pi), &(pe))")
+
+_GNT_LOOPS = {
+    0: """__CPROVER_assigns(pos)
+__CPROVER_loop_invariant(__CPROVER_loop_entry(pos) <= pos && pos <= len)
+__CPROVER_loop_invariant(!(__CPROVER_loop_entry(pos) <= ghost_k && ghost_k < pos) || !SPEC_IS_TOKEN(data[ghost_k]))
+__CPROVER_decreases(len - pos)""",
+    2: """__CPROVER_assigns(pos)
+__CPROVER_loop_invariant(__CPROVER_loop_entry(pos) <= pos && pos <= len)
+__CPROVER_loop_invariant(!(__CPROVER_loop_entry(pos) <= ghost_k && ghost_k < pos) || !SPEC_IS_TOKEN(data[ghost_k]))
+__CPROVER_decreases(len - pos)""",
+}
+for n in (3, 4):
+    UNITS["GetNextToken_%d" % n] = dict(
+        file=SK, anchor=r"sonic_force_inline uint8_t GetNextToken\(", cname="GetNextToken_%d" % n,
+        tparams={"N": str(n)}, rules=SIMD_RULES, nloops=4, loops=_GNT_LOOPS,
+        must_fire=["vec-load", "vecbool-splat", "vec-or-assign", "vec-var-bitmask"])
+
+UNITS["skip_space_safe"] = dict(
+    file=SK, anchor=r"sonic_force_inline uint8_t skip_space_safe\(", nloops=2,
+    callmacro="#define skip_space_safe(d, p, l, e, b) (skip_space_safe)(d, &(p), l, &(e), &(b))",
+    contract="""
+__CPROVER_requires(len <= MAXLEN && __CPROVER_is_fresh(data, len))
+__CPROVER_requires(__CPROVER_is_fresh(pos__r, sizeof(size_t)) && *pos__r <= len)
+__CPROVER_requires(__CPROVER_is_fresh(nonspace_bits_end__r, sizeof(size_t)))
+__CPROVER_requires(__CPROVER_is_fresh(nonspace_bits__r, sizeof(uint64_t)))
+__CPROVER_requires(GHOSTS_OF(data, len))
+__CPROVER_requires(WF_CACHE(*pos__r, len, *nonspace_bits_end__r))
+__CPROVER_requires(CACHE_AGREES_AT(*nonspace_bits_end__r, *nonspace_bits__r, ghost_k, ghost_vk))
+__CPROVER_requires(CACHE_AGREES_AT(*nonspace_bits_end__r, *nonspace_bits__r, ghost_j, ghost_vj))
+__CPROVER_assigns(*pos__r, *nonspace_bits_end__r, *nonspace_bits__r)
+/* C11: stays inside the input, position is monotone and never passes len */
+__CPROVER_ensures(*pos__r >= __CPROVER_old(*pos__r) && *pos__r <= len)
+__CPROVER_ensures(__CPROVER_old(*pos__r) >= len || (*pos__r > __CPROVER_old(*pos__r) && __CPROVER_return_value == data[*pos__r - 1]))
+/* scanner state stays well-formed and the cached bitmap keeps describing the buffer */
+__CPROVER_ensures(WF_CACHE(*pos__r, len, *nonspace_bits_end__r))
+__CPROVER_ensures(CACHE_AGREES_AT(*nonspace_bits_end__r, *nonspace_bits__r, ghost_k, ghost_vk))
+__CPROVER_ensures(CACHE_AGREES_AT(*nonspace_bits_end__r, *nonspace_bits__r, ghost_j, ghost_vj))
+/* functional: everything skipped is RFC 8259 whitespace, and the byte returned is the first non-space (or the input ended) */
+__CPROVER_ensures(!(__CPROVER_old(*pos__r) <= ghost_k && ghost_k + 1 < *pos__r) || SPEC_IS_SPACE(ghost_vk))
+__CPROVER_ensures(__CPROVER_old(*pos__r) >= len || *pos__r == len || *pos__r - 1 != ghost_j || !SPEC_IS_SPACE(ghost_vj))
+""",
+    loops={
+        0: """__CPROVER_assigns(pos, nonspace, nonspace_bits_end, nonspace_bits)
+__CPROVER_loop_invariant(__CPROVER_loop_entry(pos) <= pos && pos <= len)
+__CPROVER_loop_invariant(nonspace_bits_end == __CPROVER_loop_entry(nonspace_bits_end) && nonspace_bits == __CPROVER_loop_entry(nonspace_bits))
+__CPROVER_loop_invariant(!(__CPROVER_loop_entry(pos) <= ghost_k && ghost_k < pos) || SPEC_IS_SPACE(ghost_vk))
+__CPROVER_decreases(len - pos)""",
+        1: """__CPROVER_assigns(pos)
+__CPROVER_loop_invariant(__CPROVER_loop_entry(pos) <= pos && pos <= len)
+__CPROVER_loop_invariant(!(__CPROVER_loop_entry(pos) <= ghost_k && ghost_k < pos) || SPEC_IS_SPACE(ghost_vk))
+__CPROVER_decreases(len - pos)""",
+    })
+
+for arch in ("avx2", "sse"):
+    UNITS["%s.GetNonSpaceBits" % arch] = dict(
+        file=A + arch + "/unicode.h", anchor=r"sonic_force_inline uint64_t GetNonSpaceBits\(", rules=SIMD_RULES,
+        autos={"whitespace_table": "m256"} if arch == "avx2" else {},
+        must_fire=(["simd8x64-load", "simd8x64-eqv", "repeat16", "simd8x64-chunk"] if arch == "avx2" else []))
